@@ -22,6 +22,8 @@ C05-d counter dimension: what is added to superblock.freeBlocks / groupDescripto
 C05-e layout agreement (byte-layout extraction) of superblock, group descriptor, inode and directory entry encoders and parsers.
 C05-f a removed inode is released on disk: Remove stores 0 into the removed inode's link count (or a deletion time) and writes that inode back, so that the inode table agrees with the cleared bitmap bit.
 C05-g writeDirectory stores a directory inode's size and block count so that they depend on the block count of its extents (a directory never gives blocks back).
+C05-h a symlink target is kept in the inode exactly when it is shorter than 60 bytes: every comparison of a symlink length with the limit in Symlink, inode.toBytes and inodeFromBytes splits at 60.
+C05-i the length to which Directory.toBytes pads the last entry of a block depends on withChecksums (room for the checksum tail).
 Not covered: layout at mkfs time, link counts of parents, extent trees, directory block packing, what happens after a refused operation.`)
 	register("C04", runC04, `Structural clauses of the ext4 tree behaviour, decided statically.
 C04-a write-back pairing (typestate): after a store to a field of an inode that was loaded from disk (not a freshly built one), every success return of Chmod, Chown, Chtimes, Truncate, Symlink, mkDirEntry and File.Write is reached only through writeInode; the flush guarded by "size or block count changed" in File.Write is recognised.
@@ -30,6 +32,8 @@ C04-c allocation and release address the same bit (shared with C05-c): a file re
 C04-d an inode read from an arbitrary directory entry may have no extent tree (a symlink stored in the inode, a special file): every method call on its extents field is dominated by a nil test, as OpenFile does.
 C04-e Remove rewrites the parent directory in all of its blocks (through writeDirectory, or every iteration of its block loop writes the block), so that no block keeps entries of the old listing.
 C04-f in the extent loops of File.Read/Write an extent whose end (fileBlock+count, exclusive) equals the start block is skipped.
+C04-g in those loops the device offset of each transfer depends on a value the transfer's own count updates (shared with C10-f).
+C04-h every extent allocateExtents creates starts (fileBlock) at a value that depends on the blocks the file already has (previous.blockCount()).
 Not covered: the rest of the extent mapping arithmetic in File.Read/Write, directory block packing, path walking, equality with a reference tree.`)
 }
 
@@ -54,6 +58,10 @@ func runC05(w *World, r *Report) {
 	runCodecFamily(w, r, "C05-e", codecPairsC05)
 	c05RemoveReleasesInode(w, r)
 	c05DirSize(w, r)
+	c05SymlinkLimit(w, r)
+	c05DirRecLen(w, r)
+	r.Floor("C05-h", r.countRule("C05-h"), 4)
+	r.Floor("C05-i", r.countRule("C05-i"), 2)
 	r.Floor("C05-g", r.countRule("C05-g"), 2)
 	r.Floor("C05-a", r.countRule("C05-a"), 30)
 	r.Floor("C05-b", r.countRule("C05-b"), 3)
@@ -80,6 +88,17 @@ func runC04(w *World, r *Report) {
 	c04ExtentsNil(w, r)
 	c04DirRewrite(w, r)
 	c04ExtentBoundary(w, r)
+	c04ExtentFileBlock(w, r)
+	r.Floor("C04-h", r.countRule("C04-h"), 2)
+	// C04-g = C10-f under this property's name: the position inside an extent follows the advancing cursor
+	subc := newReport("C04", r.Tier)
+	c10ExtentCursor(w, subc)
+	for _, o := range subc.Obls {
+		o.Rule = "C04-g"
+		r.Obls = append(r.Obls, o)
+		r.seen[o.Key()] = o
+	}
+	r.Floor("C04-g", r.countRule("C04-g"), 2)
 	r.Floor("C04-f", r.countRule("C04-f"), 2)
 	r.Floor("C04-d", r.countRule("C04-d"), 1)
 	r.Floor("C04-e", r.countRule("C04-e"), 1)
@@ -1267,6 +1286,32 @@ func c04DirRewrite(w *World, r *Report) {
 	var writes []ssa.CallInstruction
 	host := rm
 	scope := w.reachableFrom([]*ssa.Function{rm}, func(f *ssa.Function) bool { return w.pkgOf(f) == pE4c })
+	// Remove's own phase helpers: functions whose every in-package caller is Remove or another such helper
+	phase := map[*ssa.Function]bool{rm: true}
+	for changed := true; changed; {
+		changed = false
+		for f := range scope {
+			if phase[f] {
+				continue
+			}
+			ncall, all := 0, true
+			for _, caller := range w.ModFns {
+				if caller.Blocks == nil {
+					continue
+				}
+				for range calls(caller, true, func(c ssa.CallInstruction) bool { return c.Common().StaticCallee() == f }) {
+					ncall++
+					if !phase[caller] {
+						all = false
+					}
+				}
+			}
+			if ncall > 0 && all {
+				phase[f] = true
+				changed = true
+			}
+		}
+	}
 	for _, f := range sortedFns(scope) {
 		if f != rm && (f.Name() == "writeInode" || f.Name() == "writeGDT" || f.Name() == "writeSuperblock" || strings.Contains(f.Name(), "Bitmap") || f.Name() == "deallocateExtents") {
 			continue
@@ -1281,9 +1326,9 @@ func c04DirRewrite(w *World, r *Report) {
 				}
 				// serialised by Remove or one of its phase helpers, not by a function that hands the bytes to writeDirectory
 				ser := rt.Call.Parent()
-				return len(calls(ser, false, func(c ssa.CallInstruction) bool { return c.Common().StaticCallee() == wd })) == 0
+				return phase[ser] && len(calls(ser, false, func(c ssa.CallInstruction) bool { return c.Common().StaticCallee() == wd })) == 0
 			})
-			if fromRemove && len(cycleThrough(c.Block())) > 0 {
+			if fromRemove && phase[f] && len(cycleThrough(c.Block())) > 0 {
 				if len(writes) == 0 {
 					host = f
 				}
@@ -1611,5 +1656,174 @@ func c05DirSize(w *World, r *Report) {
 	})
 	if n == 0 {
 		r.Undecided("C05-g", fnName(wd), "directory inode size and blocks", w.relFile(wd.Pos()), "writeDirectory does not store the directory inode's size/blocks itself")
+	}
+}
+
+// ---------------------------------------------------------------------------------------------------
+// further structural clauses found through sub-agent changes (C04-h, C05-h, C05-i)
+
+// c04ExtentFileBlock (C04-h): the logical block at which a newly allocated extent starts is the number of blocks
+// the file already has: every store to extent.fileBlock in allocateExtents depends on previous.blockCount().
+func c04ExtentFileBlock(w *World, r *Report) {
+	ae := w.Method(pE4c, "FileSystem", "allocateExtents")
+	n := 0
+	allInstrs(ae, func(ins ssa.Instruction) {
+		st, ok := ins.(*ssa.Store)
+		if !ok {
+			return
+		}
+		nm, f, _, ok := fieldOfAddr(st.Addr)
+		if !ok || nm == nil || nm.Obj().Name() != "extent" || f.Name() != "fileBlock" {
+			return
+		}
+		n++
+		// signed additive dependence: the current block count enters with a positive sign only
+		pos, neg := false, false
+		seen := map[[2]any]bool{}
+		var walk func(v ssa.Value, negative bool, d int)
+		walk = func(v ssa.Value, negative bool, d int) {
+			k := [2]any{v, negative}
+			if v == nil || seen[k] || d > 40 {
+				return
+			}
+			seen[k] = true
+			switch x := v.(type) {
+			case *ssa.Call:
+				if g := x.Call.StaticCallee(); g != nil && g.Name() == "blockCount" {
+					if negative {
+						neg = true
+					} else {
+						pos = true
+					}
+				}
+			case *ssa.Convert:
+				walk(x.X, negative, d+1)
+			case *ssa.ChangeType:
+				walk(x.X, negative, d+1)
+			case *ssa.Phi:
+				for _, e := range x.Edges {
+					walk(e, negative, d+1)
+				}
+			case *ssa.BinOp:
+				switch x.Op {
+				case token.ADD:
+					walk(x.X, negative, d+1)
+					walk(x.Y, negative, d+1)
+				case token.SUB:
+					walk(x.X, negative, d+1)
+					walk(x.Y, !negative, d+1)
+				}
+			case *ssa.UnOp:
+				if x.Op == token.MUL {
+					for _, st2 := range cellStores(x.X) {
+						walk(st2.Val, negative, d+1)
+					}
+				}
+			}
+		}
+		walk(st.Val, false, 0)
+		dep := pos && !neg
+		r.Check(dep, "C04-h", fnName(ae), fmt.Sprintf("a new extent starts at the file's current block count #%d", n), w.relFile(instrPos(st)), "",
+			"the fileBlock of a newly allocated extent does not depend on the number of blocks the file already has (previous.blockCount()): when an existing file is extended its new extents overlap the old ones in file-block space and the tail of the write is lost")
+	})
+	if n == 0 {
+		r.Undecided("C04-h", fnName(ae), "fileBlock of new extents", w.relFile(ae.Pos()), "allocateExtents stores no extent.fileBlock itself")
+	}
+}
+
+// c05SymlinkLimit (C05-h): a symlink target is kept inside the inode only when it is shorter than 60 bytes (the size
+// of i_block); every comparison of a target length / inode size with a constant near 60 in Symlink, inode.toBytes and
+// inodeFromBytes splits the lengths at exactly 60 (n < 60 on one side, n >= 60 on the other).
+func c05SymlinkLimit(w *World, r *Report) {
+	fns := []*ssa.Function{w.Method(pE4c, "FileSystem", "Symlink"), w.Method(pE4c, "inode", "toBytes"), w.Func(pE4c, "inodeFromBytes")}
+	n := 0
+	for _, fn := range fns {
+		k := 0
+		allInstrs(fn, func(ins ssa.Instruction) {
+			bin, ok := ins.(*ssa.BinOp)
+			if !ok {
+				return
+			}
+			var c int64
+			var isC, constOnRight bool
+			if c, isC = constInt(bin.Y); isC {
+				constOnRight = true
+			} else if c, isC = constInt(bin.X); !isC {
+				return
+			}
+			if c < 56 || c > 64 {
+				return
+			}
+			other := bin.X
+			if !constOnRight {
+				other = bin.Y
+			}
+			pv := w.prov(other, provOpts{sliceLen: true})
+			isLen := pv.hasField("inode", "size") || len(pv.BinOps) >= 0 && func() bool {
+				// len(oldpath) or a decoded size
+				if cl, ok := stripConv(other).(*ssa.Call); ok {
+					if b, ok := cl.Call.Value.(*ssa.Builtin); ok && b.Name() == "len" {
+						return true
+					}
+				}
+				return pv.hasCallNamed("Uint64") || pv.hasCallNamed("Uint32")
+			}()
+			if !isLen {
+				return
+			}
+			op := bin.Op
+			if !constOnRight {
+				op = map[token.Token]token.Token{token.LSS: token.GTR, token.GTR: token.LSS, token.LEQ: token.GEQ, token.GEQ: token.LEQ}[op]
+			}
+			boundary := int64(-1)
+			switch op {
+			case token.LSS, token.GEQ:
+				boundary = c
+			case token.LEQ, token.GTR:
+				boundary = c + 1
+			default:
+				return
+			}
+			k++
+			n++
+			r.Check(boundary == 60, "C05-h", fnName(fn), fmt.Sprintf("symlink target is kept in the inode exactly when shorter than 60 bytes #%d", k), w.relFile(bin.Pos()), "",
+				fmt.Sprintf("a symlink length is split at %d instead of 60: a target of %d bytes is stored in the inode (or read from it) although ext4 keeps only targets shorter than 60 bytes there (e2fsck: 'Symlink ... is invalid')", boundary, min(boundary, 60)))
+		})
+	}
+	if n == 0 {
+		r.Undecided("C05-h", "filesystem/ext4", "symlink length limit", "filesystem/ext4", "no comparison of a symlink length with the in-inode limit found")
+	}
+}
+
+// c05DirRecLen (C05-i): when Directory.toBytes pads the last entry of a block to the end of the block, the padded
+// length leaves room for the checksum tail: the size handed to directoryEntry.toBytes depends on withChecksums.
+func c05DirRecLen(w *World, r *Report) {
+	tb := w.Method(pE4c, "Directory", "toBytes")
+	det := w.Method(pE4c, "directoryEntry", "toBytes")
+	var with *ssa.Parameter
+	for _, p := range tb.Params {
+		if p.Name() == "withChecksums" {
+			with = p
+		}
+	}
+	n := 0
+	for _, c := range calls(tb, false, func(c ssa.CallInstruction) bool { return c.Common().StaticCallee() == det }) {
+		args := c.Common().Args
+		size := args[len(args)-1]
+		if k, ok := constInt(size); ok && k == 0 {
+			continue // natural length
+		}
+		n++
+		dep := false
+		for _, rt := range w.prov(size, provOpts{phiControl: true}).Roots {
+			if rt.Kind == RParam && with != nil && rt.Param == with {
+				dep = true
+			}
+		}
+		r.Check(dep && with != nil, "C05-i", fnName(tb), fmt.Sprintf("padded entry leaves room for the checksum tail #%d", n), w.relFile(c.Pos()), "",
+			"the length to which the last entry of a directory block is padded does not depend on whether a checksum tail follows: with metadata checksums the block overflows by the 12 bytes of the tail and its checksum no longer verifies")
+	}
+	if n == 0 {
+		r.Undecided("C05-i", fnName(tb), "padded entries", w.relFile(tb.Pos()), "Directory.toBytes pads no entry through directoryEntry.toBytes")
 	}
 }
